@@ -97,6 +97,8 @@ AtomCalls(rt, cd, n) ==
            ExecuteVia("u1", << Send("u2", 1) >>, "helper"),
            ExecuteVia("u1", << Inst(2, "Ly", "u1", Eth(1), "") >>, "helper"),
            ExecuteVia("u1", << Inst(7, "Ly", "u1", <<>>, "") >>, "helper"),
+           ExecuteVia("u1", << Inst(2, "Ly", "u1", Eth(1), "s1") >>, "helper"),      \* Executor::instantiate2_contract
+           ExecuteVia("u1", << Migrate(A, 2) >>, "helper"), ExecuteVia("u2", << Migrate(A, 2) >>, "helper"),   \* Executor::migrate_contract
            SudoMint("u2", Eth(1)), SudoMint("u2", Eth(0)) }
     \cup { SudoWasm(A, v) : v \in {"sudo", "wasm_sudo"} }
 
@@ -218,7 +220,9 @@ PcMenu(info, fuel, cu) ==
           ELSE {})
 PcCalls(rt, cd, n) ==
     { ExecuteCall(u, << Inst(c, "Lp", adm, f, "") >>) : u \in {"u1", "u2"}, c \in {1, 2}, adm \in {"", "u2"}, f \in {<<>>, Eth(1)} }
-    \cup { ExecuteCall("u1", << Inst(1, "Lp", "", <<>>, "s1") >>), ExecuteCall("u1", << Exec("p1", <<>>) >>) }
+    \cup { ExecuteCall("u1", << Inst(1, "Lp", "", <<>>, "s1") >>), ExecuteCall("u1", << Exec("p1", <<>>) >>),
+           (* another code of the same creator: same checksum under the custom generator, so the same salted address *)
+           ExecuteCall("u1", << Inst(2, "Lp", "", <<>>, "s1") >>), ExecuteCall("u2", << Inst(2, "Lp", "", <<>>, "s1") >>) }
 
 (* ====================================================================== *)
 (* registry: C11 - code ids and contract addresses *)
